@@ -476,6 +476,9 @@ func TestVerifStatusSave(t *testing.T) {
 
 // ---------------------------------------------------------------------------------------- replay over ZMQ
 
+// (The marker travels under the topic EXTERNALTRIGGER: a topic the scenarios do not use and that is NOT saved, so that the
+// marker never arms or cancels the updater's delayed save.  It used to be a topic of its own, which the updater treats as
+// a persistent one: every synchronisation re-armed the save.)
 // suRecvUntilMark pushes a marker message through the updater and receives until it comes back: the updater handles its
 // channel in order and PUB/SUB keeps the order, so everything published before the marker has been received by then.
 // (No guessing with quiet periods.)  Returns the messages before the marker; ok=false if the marker never arrived.
@@ -484,7 +487,7 @@ var suMarkN int
 func suRecvUntilMark(sub *zmq4.Socket) ([][]string, bool) {
 	suMarkN++
 	mark := fmt.Sprintf("%d", suMarkN)
-	clientMessageChan <- ClientUpdate{tag: "VERIFMARK", state: suMarkN}
+	clientMessageChan <- ClientUpdate{tag: "EXTERNALTRIGGER", state: suMarkN}
 	out := [][]string{}
 	deadline := time.Now().Add(10 * time.Second)
 	for time.Now().Before(deadline) {
@@ -494,7 +497,7 @@ func suRecvUntilMark(sub *zmq4.Socket) ([][]string, bool) {
 			continue
 		}
 		if len(msg) == 2 {
-			if msg[0] == "VERIFMARK" && msg[1] == mark {
+			if msg[0] == "EXTERNALTRIGGER" && msg[1] == mark {
 				return out, true
 			}
 			out = append(out, []string{msg[0], msg[1]})
@@ -533,10 +536,10 @@ func TestVerifStatusReplay(t *testing.T) {
 		joined := false
 		for k := 0; k < 100 && !joined; k++ {
 			suMarkN++
-			clientMessageChan <- ClientUpdate{tag: "VERIFMARK", state: suMarkN}
+			clientMessageChan <- ClientUpdate{tag: "EXTERNALTRIGGER", state: suMarkN}
 			deadline := time.Now().Add(100 * time.Millisecond)
 			for time.Now().Before(deadline) {
-				if msg, err := sub.RecvMessage(zmq4.DONTWAIT); err == nil && len(msg) == 2 && msg[0] == "VERIFMARK" {
+				if msg, err := sub.RecvMessage(zmq4.DONTWAIT); err == nil && len(msg) == 2 && msg[0] == "EXTERNALTRIGGER" {
 					joined = true
 					break
 				}
@@ -547,7 +550,7 @@ func TestVerifStatusReplay(t *testing.T) {
 			t.Fatal("SUB socket never received anything from the updater")
 		}
 		vEmit(vmap{"ev": "Start", "scen": id, "origin": sc.Origin, "main0": "empty", "read": read0, "replay": true})
-		vEmit(vmap{"ev": "Pub", "t": "VERIFMARK", "v": 0}) // the marker is a topic like any other: it is replayed by SENDALL
+		vEmit(vmap{"ev": "Pub", "t": "EXTERNALTRIGGER", "v": 0}) // the marker is a topic like any other: it is replayed by SENDALL
 		ids := map[string]int{}                            // "topic\x00json" -> value id
 		sent := map[string]string{}
 		lastChange := time.Now()
@@ -577,7 +580,7 @@ func TestVerifStatusReplay(t *testing.T) {
 				lastChange = time.Now() // the markers are status changes too: they re-arm the delayed save
 				got := [][]any{}
 				for _, m := range msgs {
-					if m[0] == "VERIFMARK" {
+					if m[0] == "EXTERNALTRIGGER" {
 						got = append(got, []any{m[0], 0}) // every marker value counts as "the" value of that topic
 						continue
 					}
